@@ -167,17 +167,20 @@ ItemPlan(d, t, pc) ==
 LockedAt(alg, fi, i) == IF alg = "retry" THEN Cardinality({k \in 1..(i - 1) : k # fi}) ELSE i - 1
 
 \* releases issued by the handlers around an acquisition frame whose pending op panics
+\* (retry.rs after fix: the handler knows whether the blocking acquisition of locks[first_index]
+\* has returned, and releases exactly the members that are held)
+RetryHeldList(E, fi, L) ==     \* &locks[0..end] plus first_index if it lies behind
+  LET end == IF fi - 1 < L THEN L + 1 ELSE L IN
+  Flatten([k \in 1..end |-> E[k]]) \o (IF fi > end THEN E[fi] ELSE <<>>)
 HandlersA(d, fr) ==
   LET E == d.C[fr.c].E IN
   IF fr.ph = "first"
-  THEN \* the owned unit's ordered_* handler, then retry's handler with locked = 0: it
-       \* releases locks[first_index] although the blocking acquisition did not return
-       UFrame(SubSeq(E[fr.fi], 1, fr.j - 1), fr.m, "recover") \o UFrame(E[fr.fi], fr.m, "recover")
+  THEN \* only the owned unit's own ordered_* handler runs: the first lock is not held
+       UFrame(SubSeq(E[fr.fi], 1, fr.j - 1), fr.m, "recover")
   ELSE LET inner == SubSeq(E[fr.i], 1, fr.j - 1)
            L     == LockedAt(fr.alg, fr.fi, fr.i)
-           outer == Flatten([k \in 1..L |-> E[k]])
-           first == IF fr.alg = "retry" /\ fr.fi > L THEN E[fr.fi] ELSE <<>>
-       IN UFrame(inner, fr.m, "recover") \o UFrame(outer, fr.m, "recover") \o UFrame(first, fr.m, "recover")
+           outer == IF fr.alg = "retry" THEN RetryHeldList(E, fr.fi, L) ELSE Flatten([k \in 1..L |-> E[k]])
+       IN UFrame(inner, fr.m, "recover") \o UFrame(outer, fr.m, "recover")
 
 \* a release of a rollback loop panics at position it.i of it.ls = inner \o outer \o first
 RollbackCtx(d, fr) == [alg |-> fr.alg, c |-> fr.c, fi |-> fr.fi, ei |-> fr.i, ej |-> fr.j]
@@ -185,11 +188,9 @@ HandlersU(d, it) ==
   LET cx    == it.ctx
       E     == d.C[cx.c].E
       inner == SubSeq(E[cx.ei], 1, cx.ej - 1)
-      olist == Flatten([k \in 1..(cx.ei - 1) |-> E[k]])
       L     == LockedAt(cx.alg, cx.fi, cx.ei)
-      outer == Flatten([k \in 1..L |-> E[k]])
-      first == IF cx.alg = "retry" /\ cx.fi > L THEN E[cx.fi] ELSE <<>>
-      again == UFrame(outer, it.m, "recover") \o UFrame(first, it.m, "recover")
+      again == IF cx.alg = "retry" THEN UFrame(RetryHeldList(E, cx.fi, L), it.m, "recover")
+               ELSE UFrame(Flatten([k \in 1..L |-> E[k]]), it.m, "recover")
   IN IF it.i <= Len(inner) THEN UFrame(inner, it.m, "recover") \o again ELSE again
 \* attempt_to_recover_*'s own handler "poisons what remains": it kills every lock of its list
 KillAllU(d, it) ==
